@@ -209,6 +209,7 @@ func checkC18(c *Ctx) {
 	c.checkFailureReported("server/db/mysql")
 	c.checkFailureReported("server/db/postgres")
 	c.checkNoNestedTransaction()
+	c.checkTxHelpersUseTheTx()
 	c.checkCommitErrorReported()
 
 	// (4) sibling agreement
